@@ -92,7 +92,7 @@ def viterbi(n, tag, dep, categories, admitted, memo, roots, penalty, max_rounds=
                 for r in memo.unary(cat):
                     key = (r.cat, head)
                     s = score - penalty
-                    if s > cell.get(key, -math.inf):
+                    if key not in cell or s > cell[key]:
                         cell[key] = s
                         nxt.append((key, s))
             changed = nxt
@@ -102,7 +102,7 @@ def viterbi(n, tag, dep, categories, admitted, memo, roots, penalty, max_rounds=
         for t in admitted[i]:
             key = (categories[t], i)
             s = float(tag[i, t])
-            if s > cell.get(key, -math.inf):
+            if key not in cell or s > cell[key]:
                 cell[key] = s
         if n == 1 or True:
             # span length 1 != n unless n == 1; unary allowed in both cases
@@ -128,7 +128,7 @@ def viterbi(n, tag, dep, categories, admitted, memo, roots, penalty, max_rounds=
                             key = (r.cat, head)
                             if length == n and r.cat in roots:
                                 proposals.add(round(s + float(dep[head, 0]), 9))
-                            if s > cell.get(key, -math.inf):
+                            if key not in cell or s > cell[key]:
                                 cell[key] = s
             if length != n:
                 close_unary(cell)
